@@ -75,6 +75,10 @@ def generated_programs(rng, n):
     for i, esc in enumerate(['\\x41', '\\u00e9', '\\U0001F600', '\\101', '\\n', '\\"', "\\'", '\\\\', '\\t\\r\\b\\a\\f\\v']):
         out.append((f"esc-d{i}", b('fn main() { println("a' + esc + '"); }')))
         out.append((f"esc-s{i}", b("fn main() { println('" + esc + "z'); }")))
+    # block and line comments in every position (the prefix stream cuts them after every character: an unclosed block
+    # comment ending in `*`, `/`, `/*`; seed S-C05l)
+    out.append(("comments0", b('/* head */ fn main() { /* note * / */ println(1 /* in expr */ + 2); /** doc **/ } // tail\n/* last *** */')))
+    out.append(("comments1", b('fn main() {\n    // line /* not open\n    let a = 1; /* multi\n line * comment */ println(a); /***/ /**/\n}\n/* generated, do not edit */')))
     from props.C14 import template_programs
     for i, (mods, _) in enumerate(template_programs()):
         if i % 4 == 0:
